@@ -270,4 +270,125 @@ def callbackFires (m : Mode) (env : Env) (s : S) (v : J) : Bool := !jeq (visitD 
 def validateD (m : Mode) (env : Env) (s : S) (v : J) : Res × J :=
   (report m (visitD m env s v).1, (visitD m env s v).2)
 
+/-! ### on which value a sub-visit runs (table Gen/SubVisits; obligation `sub_visits_run_where_modelled` in Props/C01.lean)
+
+Every call `<sub-schema>.visitJSON(settings, <arg>)` of the validator, in source order, with the value it is handed as THIS
+model has it: `notD`, `selD` (oneOf candidates) and `eachD` (anyOf candidates) see the value `v1` / `v2` and what they leave
+behind is dropped (`nodeD`: `let v1 := v`, `afterOne` / `afterAny` read only the re-run of the matched candidate) — in the
+code: a deep copy made exactly when `settings.asreq || settings.asrep`, WHATEVER the JSON type of the value (injection,
+`Env.injects`, happens only under one of the two readings, so without the copy nothing could be written either);
+the re-run of the matched candidate, the allOf members (`seqD`), items, properties and additionalProperties run on the value
+itself / on its elements. -/
+
+inductive RunsOn where
+  | self              -- the value itself: what the sub-visit writes reaches the caller's value
+  | elem              -- an item / a member of the value
+  | copyUnderReading  -- a private deep copy whenever a request / response reading is set
+  deriving DecidableEq, Repr
+
+def modelSubVisits : List (String × RunsOn) :=
+  [("visitNotOperation", .copyUnderReading),   -- notD
+   ("visitXOFOperations", .copyUnderReading),  -- selD: every oneOf candidate
+   ("visitXOFOperations", .self),              -- afterOne: the only matching candidate once more
+   ("visitXOFOperations", .copyUnderReading),  -- eachD: every anyOf candidate
+   ("visitXOFOperations", .self),              -- afterAny: the first matching candidate once more
+   ("visitXOFOperations", .self),              -- seqD: allOf members one after the other
+   ("visitJSONArray", .elem),                  -- itemsD
+   ("visitJSONObject", .elem),                 -- propsD
+   ("visitJSONObject", .elem)]                 -- addlD
+
+mutual
+/-- a property `default` the injection loop can reach WITHOUT going through a `not`: one that can be written into the value
+the caller handed in (or into the value a matched oneOf/anyOf candidate is re-run on). When there is none, every default of
+the schema lives below a `not`, where it must not influence anything: the verdict is that of plain validation. -/
+def S.hasOwnDflt : S → Bool
+  | .mk _ a b c _ i p ad =>
+    hasOwnDfltL a || hasOwnDfltL b || hasOwnDfltL c || hasOwnDfltO i || hasOwnDfltP p || hasOwnDfltO ad
+def hasOwnDfltL : List S → Bool
+  | [] => false
+  | s :: ss => s.hasOwnDflt || hasOwnDfltL ss
+def hasOwnDfltO : Option S → Bool
+  | none => false
+  | some s => s.hasOwnDflt
+def hasOwnDfltP : List (String × S) → Bool
+  | [] => false
+  | (_, s) :: ps => s.kw.dflt.isSome || s.hasOwnDflt || hasOwnDfltP ps
+end
+
+/-! ### defaults that cannot change a verdict
+
+Injection changes what a sub-schema SEES: a `not` child (on its private copy) is evaluated on the value with the child's own
+defaults written in, so `not: {properties: {a: {default: 1}}, required: [a]}` rejects `{}` under injection and accepts it
+without. The class below is where that cannot happen: in the whole tree no keyword can notice a written member (no enum,
+uniqueItems, min/maxProperties, discriminator; `required` does not name a defaulted property) and a defaulted property's own
+schema accepts every non-null value. For a schema whose defaults all live below `not`s of that class
+(`!hasOwnDflt && notsNeutral`) the verdict under injection must be that of plain validation, `Sat` of the value handed in —
+the reading of C01 that the differential run checks (tied by the run; not a theorem yet). -/
+
+/-- accepts every non-null value: no keyword, no sub-schema -/
+def S.acceptsAll (s : S) : Bool := s.kw.bare && !s.hasSub && !s.kw.hasDisc && s.kw.addHas != some false
+
+mutual
+def S.dfltNeutral : S → Bool
+  | .mk kw a b c n i p ad =>
+    kw.enum.isEmpty && !kw.uniqueItems && kw.minProps == 0 && kw.maxProps.isNone && !kw.hasDisc &&
+    dfltNeutralP kw.required p && dfltNeutralL a && dfltNeutralL b && dfltNeutralL c &&
+    dfltNeutralO n && dfltNeutralO i && dfltNeutralO ad
+def dfltNeutralL : List S → Bool
+  | [] => true
+  | s :: ss => s.dfltNeutral && dfltNeutralL ss
+def dfltNeutralO : Option S → Bool
+  | none => true
+  | some s => s.dfltNeutral
+def dfltNeutralP (req : List String) : List (String × S) → Bool
+  | [] => true
+  | (k, s) :: ps => (if s.kw.dflt.isSome then s.acceptsAll && !req.contains k else s.dfltNeutral) && dfltNeutralP req ps
+end
+
+mutual
+/-- every `not` child of the tree is in the neutral class -/
+def S.notsNeutral : S → Bool
+  | .mk _ a b c n i p ad =>
+    dfltNeutralO n && notsNeutralL a && notsNeutralL b && notsNeutralL c && notsNeutralO i && notsNeutralP p && notsNeutralO ad
+def notsNeutralL : List S → Bool
+  | [] => true
+  | s :: ss => s.notsNeutral && notsNeutralL ss
+def notsNeutralO : Option S → Bool
+  | none => true
+  | some s => s.notsNeutral
+def notsNeutralP : List (String × S) → Bool
+  | [] => true
+  | (_, s) :: ps => s.notsNeutral && notsNeutralP ps
+end
+
+/-! ### what a candidate that does not accept leaves behind (used by `failed_candidates_leave_nothing`, Props/C01.lean) -/
+
+/-- replace the value left by every candidate that does not accept -/
+def dropFailed (x : J) (l : List Out) : List Out := l.map (fun o => if passesL o.1 then o else (o.1, x))
+
+theorem outsEvs_dropFailed (x : J) (l : List Out) : outsEvs (dropFailed x l) = outsEvs l := by
+  induction l with
+  | nil => rfl
+  | cons o os ih =>
+    simp only [dropFailed, outsEvs, List.map_cons, List.map_map] at ih ⊢
+    by_cases h : passesL o.1 = true <;> simp [h, ih]
+
+theorem passing_dropFailed (x : J) (l : List Out) : passing (dropFailed x l) = passing l := by
+  induction l with
+  | nil => rfl
+  | cons o os ih =>
+    simp only [dropFailed, List.map_cons] at ih ⊢
+    by_cases h : passesL o.1 = true
+    · simp [passing, h, ih]
+    · simp [passing, h, ih]
+
+theorem firstPass_dropFailed (x : J) (l : List Out) : firstPass (dropFailed x l) = firstPass l := by
+  induction l with
+  | nil => rfl
+  | cons o os ih =>
+    simp only [dropFailed, List.map_cons] at ih ⊢
+    by_cases h : passesL o.1 = true
+    · simp [firstPass, h]
+    · simp [firstPass, h, ih]
+
 end KinModel.Schema
